@@ -3,11 +3,11 @@ package main
 // Property checks: baseline comparison, known findings, evidence, exit codes.
 
 import (
-	"golang.org/x/tools/go/ssa"
 	"crypto/sha256"
 	"encoding/hex"
 	"encoding/json"
 	"fmt"
+	"golang.org/x/tools/go/ssa"
 	"os"
 	"path/filepath"
 	"sort"
